@@ -227,11 +227,18 @@ def build_harness(flavour="O1", extra_defs=()):
 def lake(args, timeout=1800):
     with Lock("lake"):
         t0 = time.time()
-        try:
-            p = subprocess.run(["lake"] + args, cwd=LEAN, stdout=subprocess.PIPE, stderr=subprocess.STDOUT, timeout=timeout)
-            return p.returncode, p.stdout.decode(), time.time() - t0
-        except subprocess.TimeoutExpired as e:
-            return 124, "TIMEOUT after %ds\n%s" % (timeout, (e.stdout or b"").decode()[-3000:]), time.time() - t0
+        for attempt in (1, 2):
+            try:
+                p = subprocess.run(["lake"] + args, cwd=LEAN, stdout=subprocess.PIPE, stderr=subprocess.STDOUT, timeout=timeout)
+            except subprocess.TimeoutExpired as e:
+                return 124, "TIMEOUT after %ds\n%s" % (timeout, (e.stdout or b"").decode()[-3000:]), time.time() - t0
+            out = p.stdout.decode()
+            # a build that stops without any error message (lake or a lean worker killed from outside: OOM killer, a stray
+            # signal) says nothing about the proofs: run it once more before reporting it
+            if attempt == 1 and p.returncode != 0 and not re.search(r"^error", out, re.M):
+                log("lake %s ended with status %d without an error message; retrying once" % (" ".join(args), p.returncode))
+                continue
+            return p.returncode, out, time.time() - t0
 
 
 def build_driver():
